@@ -500,7 +500,9 @@ mutual
     | (k, x) :: xs => !keyReserved strForm k && Encodable strForm x && EncodableKV strForm xs
   def EncodableA (strForm : Bool) : List (Str × Tree) → Bool
     | [] => true
-    | (k, x) :: xs => k != typeKey && (isMissing x || Encodable strForm x) && EncodableA strForm xs
+    | (k, x) :: xs =>
+      k != typeKey && !(strForm && intKeyPrefix.isPrefixOf k) &&
+        (isMissing x || Encodable strForm x) && EncodableA strForm xs
 end
 
 /-! ### Well-formedness w.r.t. the class environment (`Conforms`): what C03 guarantees of every
